@@ -155,6 +155,36 @@ SCRIPT = textwrap.dedent(
             return outs, preds
         return build
 
+    # exceptional exit of queue.join() (what an interrupt of the coordinating thread amounts to at a call boundary):
+    # run must still stop the workers, wait for the calls in flight and leave no thread behind
+    import queue as _q
+    class JoinBoom(BaseException): pass
+    def join_raises_case(mw):
+        running = [0]; lk = threading.Lock(); before = threading.active_count()
+        def slow():
+            with lk: running[0] += 1
+            time.sleep(0.3)
+            with lk: running[0] -= 1
+        plan = Plan(); outs = [plan.call(slow) for _ in range(mw)]
+        real_join = _q.Queue.join
+        def bad_join(self):
+            time.sleep(0.05); raise JoinBoom()
+        _q.Queue.join = bad_join
+        try:
+            try: uberjob.run(plan, output=outs, max_workers=mw, progress=None)
+            except JoinBoom: pass
+            except BaseException as e: problems.append(f"join-raises/w{mw}: C07 unexpected {e!r}")
+            else: problems.append(f"join-raises/w{mw}: C07 exception from queue.join() was swallowed")
+        finally:
+            _q.Queue.join = real_join
+        with lk: r = running[0]
+        alive = threading.active_count() - before
+        if r or alive > 0: problems.append(f"join-raises/w{mw}: C07 run raised while {r} plan function(s) still executing and {alive} thread(s) alive")
+        time.sleep(0.4)
+    for mw in (1, 3):
+        if problems: finish()
+        join_raises_case(mw)
+
     reps = int(os.environ.get("UJVC_REPLAY_REPS", "6"))
     for sched in ("default", "random"):
         for mw in (1, 2, 4, 8):
